@@ -203,6 +203,10 @@ func (g *GcsEmu) handleGcsCompose(ctx context.Context, baseUrl HttpBaseUrl, w ht
 
 	srcs := make([]composeObj, len(req.SourceObjects))
 	for i, sObj := range req.SourceObjects {
+		if sObj == nil {
+			g.gapiError(w, http.StatusBadRequest, "bad compose request")
+			return
+		}
 		var generationMatch int64
 		if sObj.ObjectPreconditions != nil {
 			generationMatch = sObj.ObjectPreconditions.IfGenerationMatch
@@ -388,6 +392,10 @@ func (g *GcsEmu) handleGcsUpdateMetadataRequest(ctx context.Context, baseUrl Htt
 		err = json.NewDecoder(r.Body).Decode(&obj)
 		if err != nil {
 			return fmtErrorfCode(http.StatusBadRequest, "failed to parse request: %w", err)
+		}
+		if obj == nil {
+			// the body was the JSON value null
+			return fmtErrorfCode(http.StatusBadRequest, "failed to parse request: not an object resource")
 		}
 
 		if err := g.store.UpdateMeta(bucket, filename, obj, metagen+1); err != nil {
